@@ -394,9 +394,13 @@ impl<C: Suite> Model for M03<C> {
 }
 
 pub fn models(tier: Tier, seed: u64) -> Vec<Box<dyn DynModel>> {
+    let h = crate::props::hist::MHist::new("C03", tier, seed);
+    let d = h.depth();
     vec![
         bounded(M03::<Bls12381G1Impl>::new(tier, seed), 1),
         bounded(M03::<Bls12381G2Impl>::new(tier, seed), 1),
+        // operation histories over both groups: the bytes are the IETF values whatever ran before
+        bounded(h, d),
     ]
 }
 
